@@ -8,6 +8,7 @@ submitting goroutine that performs the queued `Go` calls in order):
   wait                             call Wait() in a new goroutine
   k                                number of tokens in the channel at quiescence
   waitt <ms>                       call Wait(<ms> milliseconds), ms > 0, and let it return
+  sethandler <h>                   SetPanicHandler(handler number h) — later submissions use it
 The answer to an op is the sequence of observable events it causes, in order
 (`start i`, `finish i`, `handler v`, `waitret`), or `blocked` / `queued` / `waiting`
 when nothing observable happens.  Internal steps (Add, Done, channel receive) are
@@ -85,9 +86,23 @@ def parseOutcome? : List String → Option Outcome
   | ["panic", v] => Outcome.panic <$> encVal? v
   | _ => none
 
-def hvalStr : HVal → String
-  | .val v => "handler " ++ decVal v
-  | .cleanupPanic => "handler cleanup-panic"
+/-- Handler events name the handler that received the value when it is not handler 0
+(the one the harness installs first): `handler <value>@<id>`. -/
+def hidSuffix (hid : Nat) : String := if hid = 0 then "" else "@" ++ toString hid
+
+def hvalStr (hid : Nat) : HVal → String
+  | .val v => "handler " ++ decVal v ++ hidSuffix hid
+  | .cleanupPanic => "handler cleanup-panic" ++ hidSuffix hid
+
+/-- `<value>` or `<value>@<handler id>` -/
+def parseHandled? (s : String) : Option (Int × Nat) :=
+  match s.splitOn "@" with
+  | [v] => (fun x => (x, 0)) <$> encVal? v
+  | [v, h] => do
+      let x ← encVal? v
+      let h ← h.toNat?
+      if h = 0 then none else pure (x, h)
+  | _ => none
 
 def playOp (p : Player) (ts : List String) : Player × String :=
   match ts with
@@ -115,7 +130,7 @@ def playOp (p : Player) (ts : List String) : Player × String :=
         | none => (p, "not-enabled")
         | some s' =>
           let hv := match s'.tasks[id]? with
-            | some t' => (t'.handled.drop t.handled.length).map hvalStr
+            | some t' => (t'.handled.drop t.handled.length).map (hvalStr t'.hid)
             | none => []
           let ev := ["finish " ++ toString id] ++ hv
           let (p1, ev1) := pump (p.pending.length) { p with s := s' } ev
@@ -129,6 +144,15 @@ def playOp (p : Player) (ts : List String) : Player × String :=
       let (p', ev) := wake { p with s := s' } []
       (p', showEvents ev "waiting")
   | ["k"] => (p, toString p.s.k)
+  | ["sethandler", h] =>
+    -- SetPanicHandler(handler h) while the submitter is idle (a plain field store)
+    match h.toNat? with
+    | some h =>
+      if !p.pending.isEmpty then (p, "bad-op") else
+      match p.s.step (.setHandler h) with
+      | some s' => ({ p with s := s' }, "ok")
+      | none => (p, "not-enabled")
+    | none => (p, "bad-op")
   | ["waitt", d] =>
     -- `Wait(d)`, d > 0 milliseconds, called and returned (idle or expired): no effect
     match d.toNat? with
@@ -185,9 +209,12 @@ def acceptEv (s : St) (ts : List String) : Option St :=
       let t ← s.tasks[i]?
       if t.pc ≠ .running then none else s.step (.adv i)
   | ["handler", v] => do
-      let v ← encVal? v
-      let i ← findIdx? s.tasks fun t => t.pc == .recovering && t.outcome == .panic v
+      let (v, h) ← parseHandled? v
+      let i ← findIdx? s.tasks fun t => t.pc == .recovering && t.outcome == .panic v && t.hid == h
       s.step (.adv i)
+  | ["sethandler", h] => do
+      let h ← h.toNat?
+      s.step (.setHandler h)
   | ["waitcall"] => s.step .waitCall
   | ["timedwait"] => s.step .waitTimed
   | ["waitret"] =>
